@@ -70,23 +70,18 @@ func ruleSTREVAL(p *Program) *RuleResult {
 		if err != nil {
 			return nil, nil, err
 		}
-		calls := map[string]*ssa.Call{}
-		for _, ec := range evaluateCalls(fn) {
-			calls[ec.recv] = ec.call
-		}
-		return fn, calls, nil
+		return fn, nil, nil
 	}
-	run := func(fn *ssa.Function, calls map[string]*ssa.Call, s string, args ...aval) *result {
+	run := func(fn *ssa.Function, _ map[string]*ssa.Call, s string, args ...aval) *result {
 		an := newAnalyzer()
 		an.maxBlocks = 300
-		an.callModel = stringLibModel
+		oe := newOperandEnv()
 		for i, a := range args {
-			c := calls[fmt.Sprintf("args[%d]", i)]
-			if c != nil {
-				an.pin[c] = okTuple(coll(a))
-			}
+			oe.results[fmt.Sprintf("args[%d]", i)] = okTuple(coll(a))
 		}
-		return an.analyze(fn, []aval{nonnil("ctx"), coll(st.strItem(s)), sliceLen(len(args))})
+		oe.next = stringLibModel
+		an.callModel = oe.model()
+		return an.analyze(fn, []aval{nonnil("ctx"), coll(st.strItem(s)), argsValue(len(args))})
 	}
 	bad := map[string]int{}
 	report := func(fnName, key, desc, got, want string, fn *ssa.Function) {
